@@ -468,10 +468,13 @@ static int _yr_ac_find_suitable_transition_table_slot(
 
     size_t bm_len_incr = YR_BITMASK_SIZE(257) * sizeof(YR_BITMASK);
 
-    automaton->bitmask = yr_realloc(automaton->bitmask, bm_len + bm_len_incr);
+    YR_BITMASK* bitmask = yr_realloc(automaton->bitmask, bm_len + bm_len_incr);
 
-    if (automaton->bitmask == NULL)
+    // On failure the current bitmask is still owned (and freed) by the automaton.
+    if (bitmask == NULL)
       return ERROR_INSUFFICIENT_MEMORY;
+
+    automaton->bitmask = bitmask;
 
     memset((uint8_t*) automaton->bitmask + bm_len, 0, bm_len_incr);
 
@@ -612,8 +615,10 @@ static int _yr_ac_build_transition_table(YR_AC_AUTOMATON* automaton)
   {
     state = _yr_ac_queue_pop(&queue);
 
-    FAIL_ON_ERROR(_yr_ac_find_suitable_transition_table_slot(
-        automaton, automaton->arena, state, &slot));
+    FAIL_ON_ERROR_WITH_CLEANUP(
+        _yr_ac_find_suitable_transition_table_slot(
+            automaton, automaton->arena, state, &slot),
+        _yr_ac_queue_clear(&queue));
 
     // _yr_ac_find_suitable_transition_table_slot can allocate more space in
     // both tables and cause the tables to be moved to a different memory
